@@ -27,6 +27,7 @@ func runC16(c *fw.Ctx) {
 	r161(c)
 	r163(c)
 	r162(c)
+	r164(c)
 }
 
 type slotOp struct {
@@ -756,20 +757,44 @@ func r163(c *fw.Ctx) {
 				saved[f] = true
 			}
 		}
-		inspectFunc(efd, func(n ast.Node) bool {
-			as, ok := n.(*ast.AssignStmt)
-			if !ok || len(as.Lhs) != len(as.Rhs) {
-				return true
+		// restored on EVERY normal path of endFuncBody (a restore under a condition leaves the closure's value
+		// in place on the other paths)
+		{
+			epaths, etrunc := enumPaths(info, efd.Body)
+			if etrunc {
+				c.Undecided(rule, "endFuncBody/paths", efd.Pos(), "too many paths")
 			}
-			for i := range as.Lhs {
-				lf, _, lCur := ctxField(as.Lhs[i])
-				rf, rOld, _ := ctxField(as.Rhs[i])
-				if lCur && rOld && lf == rf {
-					restored[lf] = true
+			count := map[string]int{}
+			nNormal := 0
+			for _, pa := range epaths {
+				if pa.Abnormal {
+					continue
+				}
+				nNormal++
+				seen := map[string]bool{}
+				for _, nd := range pa.Nodes {
+					as, ok := nd.(*ast.AssignStmt)
+					if !ok || len(as.Lhs) != len(as.Rhs) {
+						continue
+					}
+					for i := range as.Lhs {
+						lf, _, lCur := ctxField(as.Lhs[i])
+						rf, rOld, _ := ctxField(as.Rhs[i])
+						if lCur && rOld && lf == rf {
+							seen[lf] = true
+						}
+					}
+				}
+				for f := range seen {
+					count[f]++
 				}
 			}
-			return true
-		})
+			for f, k := range count {
+				if nNormal > 0 && k == nNormal {
+					restored[f] = true
+				}
+			}
+		}
 		// a new function body starts with its own function object and with fresh per-function state:
 		// labels and the tracked panic calls belong to one function (Go: labels are function-scoped)
 		for _, f := range []string{"labels", "panicCalls"} {
@@ -848,4 +873,181 @@ func r163(c *fw.Ctx) {
 		})
 		c.Check(okS && okE, rule, "vblock/save-restore-inverse", vs.Pos(), "a virtual block must save and restore exactly the current block and scope")
 	}
+}
+
+// R16.4: the stack primitives change the length by exactly their documented amount, unconditionally. Every
+// balance argument above (a block truncates to its base, an operation removes what it peeked) reasons with
+// these amounts. The new length is computed symbolically from the primitive's single store to the data
+// slice: p.data[:H] has length H, append(X, v) length(X)+1, append(X, vs...) length(X)+len(vs); len(p.data)
+// and a local bound to it are the old length L. Expected: Push L+1, Pop L-1, PopN(n) L-n,
+// Ret(arity, results...) L-arity+len(results), SetLen(base) base. A primitive with a branch in its body has
+// no single amount.
+func r164(c *fw.Ctx) {
+	const rule = "R16.4"
+	type lin map[string]int // variable -> coefficient; "" -> constant
+	add := func(a, b lin, sign int) lin {
+		r := lin{}
+		for k, v := range a {
+			r[k] += v
+		}
+		for k, v := range b {
+			r[k] += sign * v
+		}
+		for k, v := range r {
+			if v == 0 {
+				delete(r, k)
+			}
+		}
+		return r
+	}
+	show := func(l lin) string {
+		var ks []string
+		for k := range l {
+			ks = append(ks, k)
+		}
+		sort.Strings(ks)
+		out := ""
+		for _, k := range ks {
+			out += sprintf("%+d", l[k])
+			if k != "" {
+				out += "*" + k
+			}
+		}
+		if out == "" {
+			out = "0"
+		}
+		return out
+	}
+	eq := func(a, b lin) bool { return show(a) == show(b) }
+	expected := map[string]func(params []string) lin{
+		"Push":   func(ps []string) lin { return lin{"L": 1, "": 1} },
+		"Pop":    func(ps []string) lin { return lin{"L": 1, "": -1} },
+		"PopN":   func(ps []string) lin { return lin{"L": 1, ps[0]: -1} },
+		"Ret":    func(ps []string) lin { return lin{"L": 1, ps[0]: -1, "len(" + ps[1] + ")": 1} },
+		"SetLen": func(ps []string) lin { return lin{ps[0]: 1} },
+	}
+	n := 0
+	for _, name := range []string{"Push", "Pop", "PopN", "Ret", "SetLen"} {
+		fd, p := needDecl(c, rule, "internal:(*Stack)."+name)
+		if fd == nil {
+			continue
+		}
+		info := p.TypesInfo
+		n++
+		var params []string
+		for _, f := range fd.Type.Params.List {
+			for _, nm := range f.Names {
+				params = append(params, nm.Name)
+			}
+		}
+		branch := false
+		ast.Inspect(fd.Body, func(m ast.Node) bool {
+			switch m.(type) {
+			case *ast.IfStmt, *ast.SwitchStmt, *ast.TypeSwitchStmt, *ast.ForStmt, *ast.RangeStmt, *ast.SelectStmt, *ast.GoStmt, *ast.DeferStmt:
+				branch = true
+			}
+			return true
+		})
+		if branch {
+			c.Violate(rule, "Stack."+name+"/unconditional", fd.Pos(), "the stack primitive %s branches: it no longer changes the length by one documented amount on every call (callers rely on it: endBlockStmt re-extends the stack to the block's base after an inline closure consumed its arguments)", name)
+			continue
+		}
+		isData := func(e ast.Expr) bool {
+			se, ok := unparen(e).(*ast.SelectorExpr)
+			if !ok {
+				return false
+			}
+			fv, ok := info.Uses[se.Sel].(*types.Var)
+			return ok && fv.IsField() && fv.Name() == "data"
+		}
+		locals := map[types.Object]ast.Expr{}
+		var store ast.Expr
+		nStores := 0
+		for _, st := range fd.Body.List {
+			as, ok := st.(*ast.AssignStmt)
+			if !ok || len(as.Lhs) != 1 || len(as.Rhs) != 1 {
+				continue
+			}
+			if isData(as.Lhs[0]) {
+				store = as.Rhs[0]
+				nStores++
+			} else if id, ok := as.Lhs[0].(*ast.Ident); ok && as.Tok == token.DEFINE {
+				locals[info.Defs[id]] = as.Rhs[0]
+			}
+		}
+		if nStores != 1 {
+			c.Undecided(rule, "Stack."+name+"/single-store", fd.Pos(), "expected one store to the data slice, found %d", nStores)
+			continue
+		}
+		var evalInt func(e ast.Expr) (lin, bool)
+		var length func(e ast.Expr) (lin, bool)
+		evalInt = func(e ast.Expr) (lin, bool) {
+			e = unparen(e)
+			if v, ok := constInt(info, e); ok {
+				return lin{"": int(v)}, true
+			}
+			switch x := e.(type) {
+			case *ast.Ident:
+				if def, ok := locals[info.Uses[x]]; ok {
+					return evalInt(def)
+				}
+				return lin{x.Name: 1}, true
+			case *ast.CallExpr:
+				if id, ok := unparen(x.Fun).(*ast.Ident); ok && id.Name == "len" && len(x.Args) == 1 {
+					if isData(x.Args[0]) {
+						return lin{"L": 1}, true
+					}
+					if l, ok := length(x.Args[0]); ok {
+						return l, true
+					}
+					return lin{"len(" + exprString(x.Args[0]) + ")": 1}, true
+				}
+			case *ast.BinaryExpr:
+				a, ok1 := evalInt(x.X)
+				b, ok2 := evalInt(x.Y)
+				if ok1 && ok2 {
+					switch x.Op {
+					case token.ADD:
+						return add(a, b, 1), true
+					case token.SUB:
+						return add(a, b, -1), true
+					}
+				}
+			}
+			return nil, false
+		}
+		length = func(e ast.Expr) (lin, bool) {
+			e = unparen(e)
+			switch x := e.(type) {
+			case *ast.SelectorExpr:
+				if isData(x) {
+					return lin{"L": 1}, true
+				}
+			case *ast.SliceExpr:
+				if isData(x.X) && x.Low == nil && x.High != nil && !x.Slice3 {
+					return evalInt(x.High)
+				}
+			case *ast.CallExpr:
+				if id, ok := unparen(x.Fun).(*ast.Ident); ok && id.Name == "append" && len(x.Args) == 2 {
+					base, ok := length(x.Args[0])
+					if !ok {
+						return nil, false
+					}
+					if x.Ellipsis.IsValid() {
+						return add(base, lin{"len(" + exprString(x.Args[1]) + ")": 1}, 1), true
+					}
+					return add(base, lin{"": 1}, 1), true
+				}
+			}
+			return nil, false
+		}
+		got, ok := length(store)
+		if !ok {
+			c.Undecided(rule, "Stack."+name+"/length", store.Pos(), "cannot compute the new length of %s", exprString(store))
+			continue
+		}
+		want := expected[name](params)
+		c.Check(eq(got, want), rule, "Stack."+name+"/length-change", store.Pos(), "new length %s, documented %s (L = old length)", show(got), show(want))
+	}
+	c.Floor(rule, "stack primitives", n, 5)
 }
